@@ -288,6 +288,9 @@ def combine1fiber(inloglam, objflux, newloglam, objivar=None, verbose=False,
         #
         # Combine inverse variance and pixel masks.
         #
+        if objivar is None:
+            objivar = np.ones(inloglam.shape, dtype=inloglam.dtype)
+        #
         # Start with all bits set in andmask
         #
         andmask[:] = -1
